@@ -291,6 +291,7 @@ class Executor(CallMixin, EvalMixin, ExprMixin, StmtMixin):
         for g, ty in c.ghost.items():
             if g in ("self_class", "__locals__"): continue
             v = SV(ty, fresh("ghost_" + g, ty)); self.assume_wf(st, v); st.env[g] = v
+            self.current_inputs[g] = v
         if c.yields is not None:
             st.env["__yielded__"] = self.empty(T.List(c.yields))
         if R.TRACE and (c.emits is not None or c.bnodes is not None):
